@@ -29,6 +29,7 @@ def same_len(a, b):
 
 class Check(PropCheck):
     pid = 'C01'
+    pure_predicate = True
     tol = None
     rule = ('trees built through add/add_child, parsed, and edited (prune/compress/merge/add_child/ladderize), 1..200 nodes, unary and '
             'multifurcating nodes, every mixture of named/unnamed/quoted names, comments (with metacharacters), and lengths from all f64 '
